@@ -917,6 +917,9 @@ def support_dmet(ck):
     cases = []
     for loc in ("meta_lowdin", "nao"):
         cases += [{"geom": ring(4), "fa": fa, "loc": loc} for fa in ([4], [2, 2], [[0, 1], [2, 3]], [[2, 3], [0, 1]], [[3, 1], [0, 2]])]
+    # one fragment holding every atom: fragment + bath is the whole space, the electron count cannot depend on mu
+    cases += [{"geom": ring(6), "fa": [6], "loc": "nao"}, {"geom": zigzag(4), "fa": [4], "loc": "nao"},
+              {"geom": zigzag(4), "fa": [[2, 0, 3, 1]], "loc": "meta_lowdin"}]
     if not quick:
         for loc in ("meta_lowdin", "nao"):
             cases += [{"geom": ring(6), "fa": fa, "loc": loc} for fa in ([6], [3, 3], [[0, 1, 2], [3, 4, 5]], [[5, 3, 4], [1, 0, 2]])]
@@ -976,8 +979,8 @@ def support_dmet_nsum(ck):
     quick = ck.tier == "quick"
     ck.stream("support-dmet-electron-sum", "SUPPORT (numerical, not proof): real DMET runs (FCI fragments, sto-3g) on non-symmetric "
               "H6 / H4 chains with INEQUIVALENT fragments and initial_chemical_potential far from the root (0.1 .. 2.0, negative too): "
-              "after simulate() |sum n_frag - N| re-evaluated at the returned chemical potential must be below 4*tol*|d(sum n)/d mu| + 1e-7 "
-              "(tol = 1e-5, the optimizer's step tolerance); an explicit RuntimeError is accepted (tagged refused)")
+              "after simulate() |sum n_frag - N| re-evaluated at the returned chemical potential must be below max(4*tol*|d(sum n)/d mu|, tol) + 1e-7 "
+              "(tol = 1e-5 read from the source: the optimizer's step tolerance and its acceptance threshold at the start value); an explicit RuntimeError is accepted (tagged refused)")
     h6 = [["H", [0., 0., 1.0 * i + 0.1 * i * i]] for i in range(6)]
     cases = [{"geom": h6, "fa": [2, 2, 2], "loc": "meta_lowdin", "mu0": 0.5}, {"geom": h6, "fa": [2, 2, 2], "loc": "meta_lowdin", "mu0": 1.0},
              {"geom": h6, "fa": [2, 2, 2], "loc": "nao", "mu0": 1.0}, {"geom": zigzag(4), "fa": [1, 3], "loc": "meta_lowdin", "mu0": 0.7}]
@@ -1001,7 +1004,10 @@ def support_dmet_nsum(ck):
         if "refused" in r:
             ck.notes.setdefault("dmet_electron_sum_refusals", []).append({"fa": c["fa"], "loc": c["loc"], "mu0": c["mu0"], "error": r["refused"]})
             continue
-        bound = 4 * NEWTON_TOL * abs(r["slope"]) + 1e-7
+        tol = FACTS.get("optimizer_tol", NEWTON_TOL)
+        # step tolerance of the root search times the slope; with the start-value guard of the source an electron-number
+        # mismatch below tol is accepted as it is
+        bound = max(4 * tol * abs(r["slope"]), tol if FACTS.get("optimizer_checks_initial") else 0.0) + 1e-7
         if abs(r["residual"]) > bound:
             ck.violation("C15/DMET.simulate/electron-sum-not-reached-silently",
                          "fragment_atoms=%s (%s), initial_chemical_potential=%s: simulate() returned E=%.8f at mu=%.6f without any "
@@ -1222,7 +1228,8 @@ def run(ck):
         # the geometry is aliased).  When the implementation-only oracles found the concrete failing inputs of exactly
         # that class, those VIOLATION lines are the report; otherwise the broken obligation is reported by itself.
         explained = {"C15_source_dmet_reorder_is_permutation": (SIG_DMET_INCOMPLETE, SIG_DMET_NEGDUP, SIG_DMET_WRONG_ATOMS),
-                     "C15_source_oniom_telescopes": (SIG_ALIAS,), "C15_source_distribute_atoms_unchanged": (SIG_ALIAS,)}
+                     "C15_source_oniom_telescopes": (SIG_ALIAS,), "C15_source_distribute_atoms_unchanged": (SIG_ALIAS,),
+                     "C15_source_dmet_optimizer_accepts_solved_start": (SIG_NEWTON,)}
         found = {v["signature"] for v in ck.violations if v["found_input"]}
         if res_src.failed in explained and found & set(explained[res_src.failed]):
             ck.notes["source_obligation_broken"] = {"theorem": res_src.failed, "explained_by": sorted(found & set(explained[res_src.failed])),
@@ -1235,9 +1242,10 @@ def run(ck):
                  "C15_mi_full_order_is_total (all n, by induction)", "C15_mi_full_order_is_total_python_keys", "C15_py_tuple_str_injective", "C15_mi_top_is_total_any_order", "C15_mi_epsilon_defined_before_use",
                  "C15_mi_full_table_closed", "C15_dmet_reorder_is_permutation (repaired checks)", "C15_dmet_cost_zero_iff_electron_sum",
                  "C15_source_dmet_reorder_is_permutation (check chain regenerated from the source)",
-                 "C15_source_oniom_telescopes, C15_source_distribute_atoms_unchanged (copy fact regenerated from the source)"],
+                 "C15_source_oniom_telescopes, C15_source_distribute_atoms_unchanged (copy fact regenerated from the source)",
+                 "C15_source_dmet_optimizer_accepts_solved_start (guard fact regenerated from the source)", "C15_dmet_optimizer_result"],
         "partial": ["C15_oniom_telescopes_asis_partial", "C15_distribute_asis_eq_repaired_partial", "C15_dmet_reorder_asis_partial"],
-        "refuted (as-is variants of the original source, kept as witnesses)": ["C15_distribute_atoms_aliasing_refuted", "C15_dmet_reorder_asis_refuted"]}
+        "refuted (as-is variants of the original source, kept as witnesses)": ["C15_distribute_atoms_aliasing_refuted", "C15_dmet_reorder_asis_refuted", "C15_dmet_optimizer_asis_refuted"]}
     ck.notes["clauses_not_covered_by_a_theorem"] = [
         "DMET energy equals the exact solver's energy when fragment+bath span the space; electron numbers sum to N at the end of "
         "simulate(); invariance under atom relabelling (numerical: support-dmet stream only)",
@@ -1303,7 +1311,7 @@ def replay(data):
         print(res)
         if "refused" in res:
             return 0
-        return 1 if abs(res["residual"]) > 4 * NEWTON_TOL * abs(res["slope"]) + 1e-7 else 0
+        return 1 if abs(res["residual"]) > max(4 * NEWTON_TOL * abs(res["slope"]), NEWTON_TOL) + 1e-7 else 0
     if kind == "support-oniom":
         e, ref, changed = run_support_oniom(r["case"])
         print(e, ref, changed)
